@@ -78,6 +78,13 @@ structure CoinDataHeight where
   height : Height
   deriving DecidableEq, Repr, Inhabited
 
+structure StakeDoc where
+  pubkey : Bytes
+  eStart : Nat
+  ePostEnd : Nat
+  symsStaked : Value128
+  deriving DecidableEq, Repr, Inhabited
+
 /-- A transaction together with the externally computed facts about it
     (hash without signatures, serialised length, hash of every covenant). -/
 structure Tx where
@@ -94,6 +101,12 @@ structure Tx where
   rawLen : Nat
   /-- `tmelcrypt::hash_single(cov)` for each covenant, in order — supplied -/
   covHashes : List Hash
+  /-- `stdcode::deserialize::<StakeDoc>(data)` — supplied (only consulted for `Stake` txs) -/
+  stakeDoc : Option StakeDoc := none
+  /-- difficulty of `stdcode::deserialize::<(u32, Vec<u8>)>(data)`, if it decodes — supplied -/
+  powDifficulty : Option Nat := none
+  /-- `melpow::Proof::from_bytes(proof_bytes).is_some()` — supplied -/
+  powProofParses : Bool := false
   deriving DecidableEq, Repr, Inhabited
 
 structure Header where
@@ -122,12 +135,6 @@ structure PoolState where
   liqs : Nat
   deriving DecidableEq, Repr, Inhabited
 
-structure StakeDoc where
-  pubkey : Bytes
-  eStart : Nat
-  ePostEnd : Nat
-  symsStaked : Value128
-  deriving DecidableEq, Repr, Inhabited
 
 structure ProposerAction where
   feeMultiplierDelta : Int      -- i8
